@@ -218,7 +218,7 @@ def obs_impl(sc):
             problems.append('transition to unknown state %s' % t.target)
         if (t.target is None) != t.internal:
             problems.append('internal flag inconsistent for %s' % t)
-        trs.append((t.source, t.target or '', t.event or ''))
+        trs.append((t.source, t.target or '', _code(t)))
     for n in names:
         if sorted(map(id, sc.transitions_from(n))) != sorted(id(t) for t in sc.transitions if t.source == n):
             problems.append('transitions_from(%s) disagrees with the transition list' % n)
@@ -264,6 +264,23 @@ INITIALS = {
 }
 
 
+def _ev(code):
+    """event field of an op: 'x' or 'x!1' (event x, priority 1) -> (event, priority)"""
+    if code and '!' in code:
+        name, prio = code.split('!')
+        return name, int(prio)
+    return code, 0
+
+
+def _code(t):
+    return (t.event or '') + ('!%d' % t.priority if t.priority else '')
+
+
+def _mk(src, tgt, code):
+    ev, prio = _ev(code)
+    return Transition(src, tgt, event=ev, priority=prio)
+
+
 def apply_impl(sc, op):
     k = op[0]
     if k == 'add_state':
@@ -276,12 +293,12 @@ def apply_impl(sc, op):
     elif k == 'move_state':
         sc.move_state(op[1], op[2])
     elif k == 'add_transition':
-        sc.add_transition(Transition(op[1], op[2], event=op[3]))
+        sc.add_transition(_mk(op[1], op[2], op[3]))
     elif k == 'remove_transition':
-        sc.remove_transition(Transition(op[1], op[2], event=op[3]))
+        sc.remove_transition(_mk(op[1], op[2], op[3]))
     elif k == 'rotate_transition':
-        cands = [t for t in sc.transitions if (t.source, t.target, t.event) == tuple(op[1])]
-        t = cands[0] if cands else Transition(*op[1][:2], event=op[1][2])
+        cands = [t for t in sc.transitions if (t.source, t.target, _code(t) or None) == tuple(op[1])]
+        t = cands[0] if cands else _mk(*op[1])
         kw = {}
         if op[2] != '':
             kw['new_source'] = op[2]
@@ -346,6 +363,11 @@ def ops_for(ref):
         seen_t.add(tuple(t))
         ops.append(('remove_transition', t[0], t[1], t[2]))
         ops.append(('add_transition', t[0], t[1], t[2]))       # a second, equal-looking transition
+        if t[2] and '!' not in t[2]:
+            ops.append(('add_transition', t[0], t[1], t[2] + '!1'))     # a twin that differs only in its priority
+            # a transition that was never added and differs from a registered one only in its priority
+            ops.append(('rotate_transition', (t[0], t[1], t[2] + '!7'), names[0], ''))
+            ops.append(('remove_transition', t[0], t[1], t[2] + '!7'))
         for ns in [''] + names[:4] + ['zz']:
             for nt in ['', None] + names[:3] + ['zz']:
                 ops.append(('rotate_transition', tuple(t), ns, nt))
